@@ -40,7 +40,7 @@ Init ==
 ClassOf(a) ==
     IF a = "based_on" THEN (IF arch THEN "DONT" ELSE "ACCEPT")
     ELSE IF ~arch THEN "REJECT"                    \* a layer rule needs an architecture first
-    ELSE IF a = "layers_that" THEN "FREE"
+    ELSE IF a = "layers_that" THEN "ACCEPT"        \* with an architecture given a rule may be started
     ELSE IF ~rule THEN "DONT"
     ELSE IF a \in Singles THEN
         (IF phase = "subject" THEN (IF nsub >= 1 THEN "REJECT" ELSE "ACCEPT") ELSE "FREE")
